@@ -509,21 +509,19 @@ func failedStores(r *vkit.Run, adir, cache string, keys []lkey, refs map[string]
 		}
 		args := []string{"-test.run=^TestChild$", "-test.timeout=120s"}
 		env := childEnv("VERIF_C14_ROLE=faulty", "VERIF_C14_CACHE="+cache, "VERIF_C14_INITIAL="+pl.initial, "VERIF_C14_MAXITER=4")
+		event := fmt.Sprintf("failed-store plan %d: method=%s param=%d initial=%s", pi, pl.method, pl.param, pl.initial)
+		ctx, cancel := context.WithTimeout(context.Background(), 120*time.Second)
 		var cmd *exec.Cmd
 		if pl.method == "rlimit" {
-			cmd = exec.Command(os.Args[0], args...)
+			cmd = exec.CommandContext(ctx, os.Args[0], args...)
 			env = append(env, fmt.Sprintf("VERIF_C14_FSIZE=%d", pl.param))
 		} else {
 			sargs := []string{"-f", "-qq", "-o", "/dev/null", "-e", "trace=write",
 				"-e", fmt.Sprintf("inject=write:error=ENOSPC:when=%d", pl.param), os.Args[0]}
-			cmd = exec.Command("strace", append(sargs, args...)...)
+			cmd = exec.CommandContext(ctx, "strace", append(sargs, args...)...)
 		}
 		cmd.Env = env
-		event := fmt.Sprintf("failed-store plan %d: method=%s param=%d initial=%s", pi, pl.method, pl.param, pl.initial)
-		ctx, cancel := context.WithTimeout(context.Background(), 120*time.Second)
-		cmd2 := exec.CommandContext(ctx, cmd.Path, cmd.Args[1:]...)
-		cmd2.Env = env
-		outB, runErr := cmd2.Output()
+		outB, runErr := cmd.Output()
 		cancel()
 		lines := strings.Split(string(outB), "\n")
 		failed, okStores := 0, 0
